@@ -685,7 +685,8 @@ class Splicer:
                 self.g.count('R8')
         if fc:
             for i in fc.loops:
-                if i >= len(r['loops']):
+                if i >= len(r['loops']) and not (fc.loops[i] or {}).get('optional'):
+                    # (an `optional` loop contract only helps the proof: without the loop the function's own postcondition decides)
                     self.lose('%s has no loop #%d' % (fnkey, i), tags)
             for i in fc.closures:
                 if i >= len(r['closures']):
@@ -786,16 +787,25 @@ class Splicer:
                     self.g.count('R8')
             # R14: an expression Verus cannot encode (iterator adapters, ...) is OUTLINED: the matched source text becomes the
             # body of a new #[verifier::external_body] helper (contract assumed, listed), the site becomes a call of it
-            for o in getattr(fc, 'outline', []):
+            for oi, o in enumerate(getattr(fc, 'outline', [])):
                 if o.get('_done'):
                     continue
-                ms = list(re.finditer(o['rx'], txt))
+                ms = list(re.finditer(o['rx'], txt, re.S))
                 if len(ms) != 1:
                     self.lose('outlined expression %r in %s (%d matches)' % (o['rx'], fnkey, len(ms)), tags)
                     continue
                 mm = ms[0]
                 s0 = b0 + len(txt[:mm.start()].encode())
                 e0 = b0 + len(txt[:mm.end()].encode())
+                if o.get('move'):
+                    # R14 as a move of pieces (the outlined text may contain a closure that R15 lifts out of it)
+                    oid = '%s#outline%d' % (fnkey, oi)
+                    ins(s0, '', {'lift_open': oid})
+                    ins(s0, '', {'lift_body_open': oid})
+                    ins(e0, '', {'lift_body_close': oid})
+                    ins(e0, '', {'lift_close': oid})
+                    self.lifts.setdefault(f, []).append((oid, dict(o, kind='outline'), {'span': (s0, e0), 'body_is_block': False}, fnkey, tags))
+                    continue
                 dele(s0, e0, 'R14', o['call'])
                 self.g.rewrites['R14'] = self.g.rewrites.get('R14', 0) - 1
                 self.emit_outline(f, fnkey, o, mm.group(0))
